@@ -40,7 +40,7 @@ ASSUMPTIONS = [
   'with overwrite=True a crash in the middle of removing several newer steps may leave an intermediate newer step as latest; the oracle then requires latest to be a complete previously committed step (narrow reading, see DESIGN.md)',
   'save_checkpoint_multiprocess, multi-host arrays, GCS paths, Orbax AsyncCheckpointer are not covered',
 ]
-PROBES = ['restore_by_path', 'orbax_histories', 'half_deleted_old_step', 'leftover_tmp_after_crash', 'crash_after_commit', 'crash_before_commit', 'retry_rejected_committed', 'overwrite_removed_newer', 'keep_every_retained', 'chunked_leaf', 'async_latest_in_flight', 'sweep_points', 'policy_error_expected', 'torn_write', 'ioerror_runs']
+PROBES = ['source_mutated_after_async_save', 'restore_by_path', 'orbax_histories', 'half_deleted_old_step', 'leftover_tmp_after_crash', 'crash_after_commit', 'crash_before_commit', 'retry_rejected_committed', 'overwrite_removed_newer', 'keep_every_retained', 'chunked_leaf', 'async_latest_in_flight', 'sweep_points', 'policy_error_expected', 'torn_write', 'ioerror_runs']
 
 GOOD_PREFIXES = ['checkpoint_', 'ckpt', 'a_b_', 'run1_', 'model.x']
 BAD_PREFIXES = ['m-', 'v2.', 'run1']  # end in '-', '.', digit: were glued to the step before fix 943634b
@@ -554,9 +554,19 @@ class World:
     import pathlib
 
     d = pathlib.PurePosixPath(self.dir) if (ent[0] % 4 == 1) else self.dir
-    return checkpoints.save_checkpoint(
-      d, self.tree_of(ent), op['step'], prefix=self.prefix, keep=op['keep'], overwrite=op['overwrite'], keep_every_n_steps=op['every'], async_manager=am
-    )
+    tree = self.tree_of(ent)
+    try:
+      return checkpoints.save_checkpoint(
+        d, tree, op['step'], prefix=self.prefix, keep=op['keep'], overwrite=op['overwrite'], keep_every_n_steps=op['every'], async_manager=am
+      )
+    finally:
+      if am is not None:
+        # the caller goes on training: it overwrites its arrays in place as soon as save_checkpoint has returned
+        # (the checkpoint must hold the values of the moment of the call)
+        for leaf in jax.tree_util.tree_leaves(tree):
+          if isinstance(leaf, np.ndarray) and leaf.size and leaf.flags.writeable:
+            leaf += leaf.dtype.type(1)
+        self.res.probe('source_mutated_after_async_save')
 
   def measure(self, op, ent):
     """Number of mutating file operations of this save, measured on a copy-on-write clone of the disk."""
